@@ -286,6 +286,10 @@ def observe (cfg : Cfg) (b : Book) : Event → Book
   | .tmo v =>
     let b : Book := if cfg.timeout ≤ 0 then b.flag "violated:tmo-without-timeout" else b
     let b : Book := if b.pubs.any (·.evs.contains v) then b else b.flag "violated:invented"
+    -- "the Wait and Sync variants return only after every hand-off has finished; each pair ends in a delivery or ONE OnPubTimeout call":
+    -- a timeout callback of such a publish that is still running when the call has returned (its stamp comes after `pubret`) is a violation
+    let b : Book := if b.pubs.any (fun P => P.evs.contains v && (P.v.isSync || P.v.isWait) && P.retAt.isSome)
+                    then b.flag "violated:timeout-callback-after-the-call-returned" else b
     { b with tmos := b.tmos ++ [v] }
   | .unsubinv u via c =>
     let b : Book := { b with unsubs := b.unsubs ++ [{ u := u, via := via, c := c, invAt := b.line }] }
@@ -328,6 +332,11 @@ def step (j : J) (toks : List Val) (_impl : String) : J × Out :=
       let book := observe j.cfg { j.book with line := j.book.line + 1 } e
       if j.skipped then
         ({ j with book := book }, { model := "ok", spec := some (book.viol.getD "ok"), tags := [evName toks, "model.skipped:state-explosion"] })
+      else if book.chs.length > 24 then
+        -- the `wide` family (hundreds of subscribers): the subset construction over the internal closure is hopeless; only the history
+        -- predicates judge such a scenario (never a verdict of the model side)
+        ({ j with ss := [], skipped := true, book := book },
+         { model := "ok", spec := some (book.viol.getD "ok"), tags := [evName toks, "model.skipped:wide"] })
       else
       let ss := match j.rej with | some _ => [] | none => advance j.cfg j.ss e
       if ss.length > stateCap then
